@@ -447,8 +447,10 @@ def run_exact(ctx, cell):
         ctx.check((rem == 0) | ((rem > 0) == (a > 0)), key + ":not-truncating-toward-zero", detail)
     else:
         ctx.check(abs_lt(q, b), key + ":remainder-not-smaller-than-divisor", detail)
-        # b divides a - q
-        ctx.check((a - q) % b == 0, key + ":b-does-not-divide-a-minus-remainder", detail)
+        # b divides a - q: witnesses are the floor quotient and the truncated quotient
+        k = a // b
+        ctx.check(((a - q) == k * b) | ((a - q) == tdiv(a, b) * b),
+                  key + ":b-does-not-divide-a-minus-remainder", detail)
     return out
 
 
